@@ -201,6 +201,24 @@ def main():
                                              marker, "first" if first == "faulty" else "last"), "groups": got, "rc": rc})
                 finally:
                     shutil.rmtree(hl, ignore_errors=True)
+    # the n-th read of a directory fails (EIO after a few entries): the entries that could not be read are left out - with a warning
+    # naming the directory - and the rest of the tree is grouped as usual
+    nd = os.path.join(d, "nthdir")
+    os.makedirs(os.path.join(nd, "d_NTHDIRENT"))
+    os.makedirs(os.path.join(nd, "ok"))
+    for i in range(1, 7):
+        open(os.path.join(nd, "d_NTHDIRENT", "x%d" % i), "wb").write(b"same small content\n")
+    for n in ("y1", "y2"):
+        open(os.path.join(nd, "ok", n), "wb").write(b"same small content\n")
+    for opts in ([], ["--threads", "1"]):
+        rc, got, err = groups(binary, [nd], nd, opts, dict(base_env, LD_PRELOAD=shim))
+        runs += 1
+        together = any("ok/y1" in g and "ok/y2" in g for g in (got or []))
+        if rc != 0 or not together:
+            devs.append({"options": opts, "what": "a directory whose n-th read fails changed how the healthy files are grouped", "groups": got, "rc": rc})
+        elif not any("d_NTHDIRENT" in l and "warn" in l for l in err.splitlines()):
+            devs.append({"options": opts, "what": "entries of a directory were lost to a failing read of the directory (EIO at the third entry) without any warning",
+                         "listed_from_that_directory": sorted(x for g in (got or []) for x in g if "NTHDIRENT" in x)})
     # an ignore file that cannot be loaded affects nothing but itself: the rules inherited from the parent directories keep applying
     # below it (the nested file is unreadable as text: invalid UTF-8; or a directory stands where the file is expected)
     for kind in ("invalid-utf8", "directory"):
